@@ -320,6 +320,11 @@ pub fn run(out: &mut Out, tier: &str, seed: u64) {
         if ends.is_empty() { continue; }
         let mut chosen: Vec<usize> = Vec::new();
         if ends.len() <= per_file { chosen = ends.clone(); } else { while chosen.len() < per_file { let e = *rng.pick(&ends); if !chosen.contains(&e) { chosen.push(e); } } }
+        // lines that end in a word which may or may not be followed by something (`return`, `pass`, `break`, `continue`,
+        // `...`, `:`) are always cut, whatever the seed draws
+        for &e in ends.iter().filter(|&&e| matches!(ps[e - 1].text.as_str(), "return" | "pass" | "break" | "continue" | "..." | "yield")).take(40) {
+            if !chosen.contains(&e) { chosen.push(e); }
+        }
         for i in chosen {
             let mut prefix = render(&ps[..i]);
             // keep a trailing comment of the cut line with it
